@@ -545,4 +545,231 @@ Section Sim.
         * cbn [ip op dm]. intros s' (H1 & H2 & H3 & H4 & H5). cbn [length]. unfold byte in *. repeat split; try assumption; lia.
   Qed.
 
+  (* ---------- the final literal run (full-block decoding) ---------- *)
+  Lemma safe_top_last_sim s tok r ll r1 lits rout :
+    partial = false ->
+    bytes (tok :: r) -> src_at srcm (ip s) (tok :: r) -> 0 <= ip s ->
+    ip s + Z.of_nat (length (tok :: r)) = iend ->
+    read_len (tok / 16) r = Some (ll, r1) -> take (Z.to_nat ll) r1 = Some (lits, []) ->
+    out_at (vget (dm s)) (op s) rout -> 0 <= op s -> op s + ll <= oend ->
+    is_done (safe_top partial dict srcm iend oend lowPrefix rlow dictm dictSize s)
+            (fun s' => op s' = op s + ll /\ out_at (vget (dm s')) (op s') (rev lits ++ rout)).
+  Proof.
+    intros Hp Hb Hs Hip Hie Hrl1 Htk O Hop Hroom.
+    unfold byte in *.
+    destruct (bytes_cons _ _ Hb) as [Htok Hbr].
+    destruct (src_at_cons _ _ _ _ Hs) as [Htokm Hsr].
+    destruct (nibbles tok Htok) as [Hn1 Hn2].
+    cbn [length] in Hie.
+    destruct (read_len_suffix _ _ _ _ _ Hn1 Hrl1 Hbr Hsr) as (Hl1 & Hll & Hnoext & Hs1 & Hb1).
+    unfold byte in *.
+    set (p1 := ip s + 1 + (Z.of_nat (length r) - Z.of_nat (length r1))) in *.
+    destruct (take_spec _ _ _ _ Htk) as [Er1 Hlits]. unfold byte in *.
+    rewrite app_nil_r in Er1.
+    assert (Ell : ll = Z.of_nat (length lits)) by lia.
+    assert (Hlr1 : length r1 = length lits) by (rewrite Er1; reflexivity).
+    rewrite Er1 in Hs1.
+    unfold safe_top. cbv zeta. rewrite Htokm.
+    assert (Esc : negb (tok / 16 =? RUN_MASK) && ((ip s + 1 <? shortiend iend) && (op s <=? shortoend oend)) = false).
+    { destruct (tok / 16 =? RUN_MASK) eqn:E15; [reflexivity|].
+      assert (Hlt15 : tok / 16 < 15) by fin.
+      destruct (Hnoext Hlt15) as [Ell' Er]. rewrite Er in Hlr1. fin. }
+    rewrite Esc. cbv beta iota.
+    assert (Hlit : forall kf,
+      is_done (safe_lit partial dict srcm iend oend lowPrefix rlow dictm dictSize (mkD p1 (op s) (dm s) kf) tok (Z.of_nat (length lits)))
+              (fun s' => op s' = op s + ll /\ out_at (vget (dm s')) (op s') (rev lits ++ rout))).
+    { intros kf. unfold safe_lit. cbv zeta. cbn [ip op dm]. rewrite Hp. cbn [negb andb orb].
+      assert (Ep1 : p1 + Z.of_nat (length lits) = iend) by (unfold p1; lia).
+      hd. hd.
+      cbn [is_done op dm]. split; [lia|].
+      rewrite Nat2Z.id.
+      apply lits_out_v with (m := dm s); try assumption.
+      - apply blit_same_below.
+      - apply blit_lits; [exact Hs1 | lia]. }
+    destruct (tok / 16 =? RUN_MASK) eqn:E15; cbv beta iota.
+    - unfold read_len in Hrl1. assert (E15' : (tok / 16 =? 15) = true) by fin. rewrite E15' in Hrl1.
+      destruct (rvl_sim r ll r1 (ip s + 1) (iend - RUN_MASK) true (ok s && rd_src iend (ip s) 1) Hrl1 Hsr) as (_ & _ & kf' & Hr); [fin | fin | fin |].
+      rewrite Hr. cbv beta iota. fold p1.
+      replace (tok / 16 + (ll - 15)) with (Z.of_nat (length lits)) by fin.
+      apply Hlit.
+    - assert (Hlt15 : tok / 16 < 15) by fin.
+      destruct (Hnoext Hlt15) as [Ell' Er].
+      assert (Ep1 : p1 = ip s + 1) by (unfold p1; rewrite Er; lia).
+      rewrite <- Ep1. replace (tok / 16) with (Z.of_nat (length lits)) by lia.
+      apply Hlit.
+  Qed.
+
+  (* ---------- facts about the specification's parser and the end-of-block conditions ---------- *)
+  Lemma read_len_shorter nib (bs : list Z) v (r : list Z) : read_len nib bs = Some (v, r) -> (length r <= length bs)%nat.
+  Proof.
+    unfold read_len. destruct (nib =? 15); intros H.
+    - apply read_ext_shorter in H. lia.
+    - inversion H; subst. lia.
+  Qed.
+
+  Lemma parse_seqs_S f (bs : list Z) :
+    parse_seqs (S f) bs =
+    match bs with
+    | [] => None
+    | tok :: r =>
+      match read_len (tok / 16) r with
+      | None => None
+      | Some (ll, r1) =>
+        match take (Z.to_nat ll) r1 with
+        | None => None
+        | Some (lits, r2) =>
+          match r2 with
+          | [] => Some ([], lits)
+          | [_] => None
+          | o1 :: o2 :: r3 =>
+            match read_len (tok mod 16) r3 with
+            | None => None
+            | Some (ml, r4) =>
+              match parse_seqs f r4 with
+              | None => None
+              | Some (ss, last) => Some (mkSeq lits (o1 + 256 * o2) (ml + 4) :: ss, last)
+              end
+            end
+          end
+        end
+      end
+    end.
+  Proof. reflexivity. Qed.
+
+  Lemma parse_seqs_len : forall f (bs : list Z) ss (last : list Z),
+    parse_seqs f bs = Some (ss, last) -> (1 + length last <= length bs)%nat.
+  Proof.
+    induction f as [|f IH]; intros bs ss last H; [discriminate|]. rewrite parse_seqs_S in H.
+    destruct bs as [|tok r]; [discriminate|].
+    destruct (read_len (tok / 16) r) as [[ll r1]|] eqn:E1; [|discriminate].
+    destruct (take (Z.to_nat ll) r1) as [[lits r2]|] eqn:E2; [|discriminate].
+    apply read_len_shorter in E1. destruct (take_spec _ _ _ _ E2) as [Er1 _]. unfold byte in *.
+    assert (length r1 = (length lits + length r2)%nat) by (rewrite Er1, app_length; reflexivity).
+    destruct r2 as [|o1 [|o2 r3]]; [inversion H; subst; cbn [length] in *; lia | discriminate |].
+    destruct (read_len (tok mod 16) r3) as [[ml r4]|] eqn:E3; [|discriminate].
+    destruct (parse_seqs f r4) as [[ss' last']|] eqn:E4; [|discriminate].
+    inversion H; subst. apply IH in E4. apply read_len_shorter in E3. cbn [length] in *. unfold byte in *. lia.
+  Qed.
+
+  Lemma total_len_ge ss last : Forall (fun x => 0 <= s_mlen x) ss -> Z.of_nat (length last) <= total_len ss last.
+  Proof.
+    induction 1 as [|x l Hx Hl IH]; cbn [total_len fold_right].
+    - lia.
+    - unfold total_len in IH. lia.
+  Qed.
+
+  Lemma end_ok_tail s s2 ss last : end_ok (s :: s2 :: ss) last = end_ok (s2 :: ss) last.
+  Proof.
+    unfold end_ok. cbn [rev].
+    destruct (rev ss ++ [s2]) as [|x l] eqn:E.
+    - destruct (rev ss); discriminate.
+    - reflexivity.
+  Qed.
+
+  Lemma end_room : forall ss s last,
+    end_ok (s :: ss) last = true -> Forall (fun x => 0 <= s_mlen x) (s :: ss) ->
+    5 <= Z.of_nat (length last) /\ 12 <= s_mlen s + total_len ss last /\ end_ok ss last = true.
+  Proof.
+    induction ss as [|s2 ss IH]; intros s last H F.
+    - unfold end_ok in H. cbn [rev app] in H. cbn [total_len fold_right]. split; [lia|]. split; [lia | reflexivity].
+    - rewrite end_ok_tail in H. inversion F as [|? ? F1 F2]; subst.
+      destruct (IH s2 last H F2) as (H5 & H12 & _).
+      split; [exact H5|]. split; [|exact H].
+      cbn [total_len fold_right]. unfold total_len in H12. lia.
+  Qed.
+
+  Lemma apply_seqs_mlen : forall ss rout rout', apply_seqs rout ss = Some rout' -> Forall (fun x => 0 <= s_mlen x) ss.
+  Proof.
+    induction ss as [|x ss IH]; intros rout rout' H; [constructor|].
+    cbn [apply_seqs] in H. destruct (apply_seq rout x) as [r1|] eqn:E; [|discriminate].
+    constructor; [|eapply IH; eauto].
+    unfold apply_seq in E. destruct (off_ok (s_off x) && (4 <=? s_mlen x)) eqn:E2; [lia | discriminate].
+  Qed.
+
+  (* ---------- the safe loop on a strictly valid block (full decoding) ---------- *)
+  Lemma run_sim : forall f (bs : list Z) ss (last : list Z), parse_seqs f bs = Some (ss, last) ->
+    forall rout rout' s fuel,
+    partial = false ->
+    apply_seqs rout ss = Some rout' -> end_ok ss last = true ->
+    bytes bs -> src_at srcm (ip s) bs -> 0 <= ip s -> ip s + Z.of_nat (length bs) = iend ->
+    out_at (vget (dm s)) (op s) rout -> Z.of_nat (length rout) <= op s - lowPrefix -> 0 <= op s ->
+    op s + total_len ss last <= oend -> (length bs < fuel)%nat ->
+    exists s', run partial dict srcm iend oend lowPrefix rlow dictm dictSize fuel false s
+               = (op s + total_len ss last, s')
+               /\ out_at (vget (dm s')) (op s + total_len ss last) (rev last ++ rout').
+  Proof.
+    induction f as [|f IH]; intros bs ss last H rout rout' s fuel Hp Happ Hend Hb Hs Hip Hie O Hlen Hop Hroom Hfuel;
+      [discriminate|]. rewrite parse_seqs_S in H.
+    destruct bs as [|tok r]; [discriminate|].
+    destruct (read_len (tok / 16) r) as [[ll r1]|] eqn:E1; [|discriminate].
+    destruct (take (Z.to_nat ll) r1) as [[lits r2]|] eqn:E2; [|discriminate].
+    destruct fuel as [|fuel]; [lia|].
+    cbn [run].
+    destruct r2 as [|o1 [|o2 r3]]; [| discriminate |].
+    - (* last sequence: literals only *)
+      injection H as Hss Hlast. subst ss last. cbn [apply_seqs] in Happ. injection Happ as Hr'. subst rout'.
+      cbn [total_len fold_right] in *.
+      assert (Ell : ll = Z.of_nat (length lits)).
+      { destruct (take_spec _ _ _ _ E2) as [_ Hl]. destruct (bytes_cons _ _ Hb) as [Htok Hbr].
+        destruct (nibbles tok Htok) as [Hn1 _].
+        destruct (src_at_cons _ _ _ _ Hs) as [_ Hsr].
+        destruct (read_len_suffix _ _ _ _ _ Hn1 E1 Hbr Hsr) as (_ & Hll & _). unfold byte in *. lia. }
+      pose proof (safe_top_last_sim s tok r ll r1 lits rout Hp Hb Hs Hip Hie E1 E2 O Hop) as HL.
+      destruct (safe_top partial dict srcm iend oend lowPrefix rlow dictm dictSize s) as [[|] s'|s'|s'];
+        cbn [is_done] in HL; try (exfalso; apply HL; lia).
+      destruct HL as [H1 H2]; [lia|].
+      exists s'. rewrite H1, Ell. split; [reflexivity|]. rewrite <- Ell, <- H1. exact H2.
+    - (* a complete sequence, then the rest of the block *)
+      destruct (read_len (tok mod 16) r3) as [[ml r4]|] eqn:E3; [|discriminate].
+      destruct (parse_seqs f r4) as [[ss' last']|] eqn:E4; [|discriminate].
+      assert (Hss : mkSeq lits (o1 + 256 * o2) (ml + 4) :: ss' = ss) by congruence.
+      assert (Hlast : last' = last) by congruence. clear H. subst ss last.
+      cbn [apply_seqs] in Happ.
+      destruct (apply_seq rout (mkSeq lits (o1 + 256 * o2) (ml + 4))) as [rout1|] eqn:Eapp; [|discriminate].
+      pose proof (apply_seqs_mlen _ _ _ Happ) as Fml.
+      assert (Hml0 : 0 <= ml + 4).
+      { unfold apply_seq in Eapp. cbn [s_off s_mlen] in Eapp. destruct (off_ok (o1 + 256 * o2) && (4 <=? ml + 4)) eqn:E; [lia|discriminate]. }
+      destruct (end_room ss' (mkSeq lits (o1 + 256 * o2) (ml + 4)) last' Hend) as (H5 & H12 & Hend').
+      { constructor; [cbn [s_mlen]; lia | exact Fml]. }
+      cbn [s_mlen] in H12.
+      pose proof (total_len_ge ss' last' Fml) as Htl.
+      pose proof (parse_seqs_len _ _ _ _ E4) as Hr4.
+      cbn [total_len fold_right s_lits s_mlen] in Hroom. fold (total_len ss' last') in Hroom.
+      assert (Ell : ll = Z.of_nat (length lits)).
+      { destruct (take_spec _ _ _ _ E2) as [_ Hl]. destruct (bytes_cons _ _ Hb) as [Htok Hbr].
+        destruct (nibbles tok Htok) as [Hn1 _].
+        destruct (src_at_cons _ _ _ _ Hs) as [_ Hsr].
+        destruct (read_len_suffix _ _ _ _ _ Hn1 E1 Hbr Hsr) as (_ & Hll & _). unfold byte in *. lia. }
+      assert (Hlen1 : length rout1 = (length rout + length lits + Z.to_nat (ml + 4))%nat).
+      { unfold apply_seq in Eapp. cbn [s_lits s_off s_mlen] in Eapp.
+        destruct (off_ok (o1 + 256 * o2) && (4 <=? ml + 4)); [|discriminate].
+        apply copy_match_length in Eapp. rewrite app_length, rev_length in Eapp. unfold byte in *. lia. }
+      assert (HS : is_cont (safe_top partial dict srcm iend oend lowPrefix rlow dictm dictSize s)
+            (fun s' => ip s' + Z.of_nat (length r4) = ip s + Z.of_nat (length (tok :: r)) /\
+                       src_at srcm (ip s') r4 /\ bytes r4 /\
+                       op s' = op s + ll + (ml + 4) /\ out_at (vget (dm s')) (op s') rout1)).
+      { apply (safe_top_seq_sim s tok r ll r1 lits o1 o2 r3 ml r4 rout rout1); try assumption; unfold byte in *; try lia; try (rewrite Hp; lia). }
+      destruct (safe_top partial dict srcm iend oend lowPrefix rlow dictm dictSize s) as [[|] s'|s'|s'];
+        cbn [is_cont] in HS; try (exfalso; exact HS).
+      destruct HS as (Hi' & Hs' & Hb' & Ho' & O').
+      assert (Hshr : (length r4 + 2 <= length r)%nat).
+      { pose proof (read_len_shorter _ _ _ _ E1). pose proof (read_len_shorter _ _ _ _ E3).
+        destruct (take_spec _ _ _ _ E2) as [Er1 _]. unfold byte in *.
+        assert (length r1 = (length lits + S (S (length r3)))%nat) by (rewrite Er1, app_length; reflexivity). lia. }
+      cbn [length] in Hi', Hie, Hfuel.
+      destruct (IH r4 ss' last' E4 rout1 rout' s' fuel Hp Happ Hend' Hb' Hs') as (s'' & Hrun & Hout).
+      + unfold byte in *; lia.
+      + unfold byte in *; lia.
+      + exact O'.
+      + unfold byte in *; lia.
+      + unfold byte in *; lia.
+      + unfold byte in *; lia.
+      + unfold byte in *; lia.
+      + exists s''. rewrite Hrun. split.
+        * f_equal. cbn [total_len fold_right s_lits s_mlen]. fold (total_len ss' last'). lia.
+        * cbn [total_len fold_right s_lits s_mlen]. fold (total_len ss' last').
+          replace (op s + (Z.of_nat (length lits) + (ml + 4) + total_len ss' last')) with (op s' + total_len ss' last') by lia.
+          exact Hout.
+  Qed.
+
 End Sim.
